@@ -6,7 +6,7 @@ set -u
 D=$(realpath "$1")
 WT=/tmp/wt/vrefac-$$
 git -C /repo worktree add -q --detach "$WT" HEAD || exit 2
-export CARGO_TARGET_DIR=/tmp/wt/verify-target CARGO_NET_OFFLINE=true
+export CARGO_TARGET_DIR=${VERIFY_TARGET:-/tmp/wt/verify-target} CARGO_NET_OFFLINE=true
 cd "$WT"
 if patch -p1 -s < "$D/patch.diff" >/dev/null 2>&1; then
   suite=$(cargo nextest run --workspace --no-fail-fast --offline 2>&1 | grep -E "Summary|error:" | head -1)
